@@ -45,6 +45,11 @@ ALPHABET = {
     "nsec-only-rewrite": [("writeat", "d2", "t0", 300, 5, X.file_mtime_ns("t0", 300, 0, 0) + 777)],
     "sec-only-rewrite": [("writeat", "d1", "b", 1025, 6, X.file_mtime_ns("b", 1025, 0) + 10**9)],
     "mkdir-empty": [("mkdir", "d1", "newempty")],
+    # the third disk starts empty: first things that ever appear on a disk
+    "symlink-on-empty-disk": [("symlink", "d3", "lnk", "../d1/a")],
+    "emptydir-on-empty-disk": [("mkdir", "d3", "onlydir")],
+    "file-on-empty-disk": [("write", "d3", "first", 100, 0)],
+    "zerofile-on-empty-disk": [("write", "d3", "z", 0, 0)],
     "rm-emptydir": [("rmdir", "d2", "emptyd")],
 }
 QUICK_NAMES = list(ALPHABET)
@@ -247,12 +252,12 @@ def run(ctx):
     tier = ctx.tier
     names = QUICK_NAMES
     d = 2 if tier == "quick" else 3
-    ctx.set("rule", "every sequence of <=%d operations over the %d-operation alphabet %r applied to a synced 2-disk array, "
+    ctx.set("rule", "every sequence of <=%d operations over the %d-operation alphabet %r applied to a synced array of 2 populated disks and 1 empty disk, "
                     "then diff/sync/diff/list/check; scan modes: alphabetical (all sequences), fake-UUID persistent-inode "
                     "mode, inode/dir/physical order and parallel scan (all sequences of length<=%d); thorough adds a second "
                     "round (sequence, sync, one more operation, sync). non-trivial = diff reported a difference before the sync"
                     % (d, len(names), names, 1 if tier == "quick" else 2))
-    cfg = Config(levels=1, ndisks=2)
+    cfg = Config(levels=1, ndisks=3)
     evals = 0
     states = set()
     for mode, opts in MODES.items():
